@@ -12,7 +12,7 @@ import copy
 from sim import iso, sparqlref as R
 from sim.kernel import KnownStop
 from sim.rng import Stream
-from sim.terms import EX, T, key, u
+from sim.terms import EX, XSD, T, key, u
 
 ID = "C10"
 LEVEL = "exploration"
@@ -243,8 +243,43 @@ def generate(seed, tier):
             last_prefixed = (req["ops"], req["prefixed"], req["handle"])
         elif r < 0.35:
             req["base"] = True  # BASE once, before the first operation; relative IRIs in every operation
+        elif r < 0.45:
+            # the text declares PREFIX ex: itself (once, before the first operation) while the handle binds ex: to another
+            # namespace: the declaration of the request holds for every operation of the request
+            req["declared"] = True
+        elif r < 0.6 and len(ops) == 1 and ops[0]["op"] == "modify":
+            v = _leading_var(ops[0]["where"], g)
+            if v and not _rebinds(ops[0]["where"], v):
+                # initBindings: the WHERE clause is evaluated with that variable already bound (= joined with that one row)
+                req["initb"] = [v, g.choice([_tri(g)[0], _tri(g)[2], _tri(g)[2], ["l", "", None, None], ["l", "0", None, XSD + "integer"], ["l", "false", None, XSD + "boolean"]])]
         requests.append(req)
     return {"property": ID, "config": {"union": union, "init": init}, "ops": requests}
+
+
+def _leading_var(p, g):
+    """a variable of the basic graph pattern that the WHERE clause starts with (reached without entering a UNION branch,
+    the right side of an OPTIONAL or a sub-group that is joined in later)"""
+    while p["t"] != "bgp":
+        if p["t"] in ("join", "optional"):
+            p = p["a"]
+        elif p["t"] in ("filter", "bind", "values", "graph"):
+            p = p["p"]
+        else:
+            return None
+    vs = sorted({x[1] for tr in p["triples"] for x in (tr[0], tr[2]) if x[0] == "v"})
+    return g.choice(vs) if vs else None
+
+
+def _rebinds(p, v):
+    if isinstance(p, dict):
+        if p.get("t") in ("bind", "values") and p.get("var") == v:
+            return True
+        if p.get("t") == "graph" and p["g"] == ["v", v]:
+            return True
+        return any(_rebinds(x, v) for x in p.values())
+    if isinstance(p, list):
+        return any(_rebinds(x, v) for x in p)
+    return False
 
 
 def nontrivial(trace, res):
@@ -269,7 +304,7 @@ def execute(trace, ctx):
     import warnings
 
     import rdflib.plugins.sparql as sparql_mod
-    from rdflib import ConjunctiveGraph, Dataset, Graph
+    from rdflib import ConjunctiveGraph, Dataset, Graph, Variable
     from rdflib.graph import DATASET_DEFAULT_GRAPH_ID
     from rdflib.plugins.stores.memory import Memory
     from rdflib.term import URIRef
@@ -359,8 +394,20 @@ def execute(trace, ctx):
         elif req.get("base"):
             text = R.r_request(ops, base=True)
             ctx.probe("base-before-first-operation")
+        elif req.get("declared"):
+            g.bind("ex", URIRef("http://other.example/ns#"), override=True, replace=True)
+            text = f"PREFIX ex: <{R.EXNS}>\n" + R.r_request(ops, prefixed=True)
+            ctx.probe("prefix-declared-in-request-and-bound-otherwise-on-handle")
         else:
             text = R.r_request(ops)
+        initb = None
+        if req.get("initb") and len(ops) == 1 and ops[0]["op"] == "modify":
+            v, val = req["initb"]
+            initb = {Variable(v): T(val)}
+            ops = [dict(ops[0], where={"t": "values", "var": v, "vals": [val], "p": ops[0]["where"]})]
+            ctx.probe("initBindings")
+            if not T(val):
+                ctx.probe("initBindings-falsy-term")
         ctx.op(h, "+".join(o["op"] for o in ops))
         if len(ops) > 1:
             ctx.probe("request-multi-op")
@@ -387,7 +434,7 @@ def execute(trace, ctx):
             ctx.probe("request-changed-model")
         err = None
         try:
-            g.update(text)
+            g.update(text, initBindings=initb) if initb else g.update(text)
         except Exception as e:
             err = e
         where = f"request #{req['uid']} through {h} (union switch {'on' if union else 'off'}):\n{text}\n"
